@@ -204,15 +204,23 @@ fn workload(m: &mut Mon, bits: usize) {
         for a in 0..(1u64 << bits) {
             m.case("neg", bits, vec![au(&gen::small(a, bits))]);
             for b in 0..(1u64 << bits) {
+                if !m.keep() {
+                    continue;
+                }
                 pair(m, bits, &gen::small(a, bits), &gen::small(b, bits));
             }
         }
-        m.mark_exhaustive(format!("all operand pairs for add/sub/neg at BITS={bits}"));
+        if !m.is_light() {
+            m.mark_exhaustive(format!("all operand pairs for add/sub/neg at BITS={bits}"));
+        }
     }
     // Directed corpus: boundary values against their complements and neighbours.
     let bd = gen::boundary(bits);
     let mut r = m.stream("c01.directed", bits);
     for a in &bd {
+        if !m.keep() {
+            continue;
+        }
         m.case("neg", bits, vec![au(a)]);
         let na = not_limbs(a, bits);
         let nega = neg_limbs(a, bits);
@@ -242,6 +250,9 @@ fn workload(m: &mut Mon, bits: usize) {
     // Carry chains: all-ones limbs in the middle, carry injected at the bottom.
     for lo in 0..n {
         for hi in lo..n {
+            if !m.keep() {
+                continue;
+            }
             let mut a = gen::zero(bits);
             for x in &mut a[lo..=hi] {
                 *x = u64::MAX;
